@@ -54,7 +54,7 @@ def _set_files(p):
     FILES.update(DEFAULT_FILES)
     if p is not None and _shared(p):
         FILES["class"] = FILES["argparse_function"] = "both.py"
-TYPES = gen.SIMPLE_TYPES + ("Optional[int]", "Optional[str]", "Literal['a', 'b']")
+TYPES = gen.SIMPLE_TYPES + ("Optional[int]", "Optional[str]", "Literal['a', 'b']", "Optional[bool]", "Optional[float]")
 
 
 def probes():
@@ -85,7 +85,9 @@ def project(draw):
             # another class): unrelated code by the statement, a trap for name-only lookups
             "decoy": draw(st.integers(0, 3)) == 3,
             "shared": draw(st.integers(0, 5)) == 5,
-            "legacy_attr": draw(st.integers(0, 4)) == 4}
+            "legacy_attr": draw(st.integers(0, 4)) == 4,
+            # how an argparse file spells `choices=`: tuple (most common), list or set literal
+            "choices_form": draw(st.sampled_from(("tuple", "tuple", "list", "set")))}
 
 
 @st.composite
@@ -139,7 +141,7 @@ def render_target(p, kind, spec):
                 gen.render_function(dict(spec, name=p["func_name"]), style="rest", annotate=False, indent="    ",
                                     first="self", body=["print(LIMIT)"])
         return gen.render_function(dict(spec, name=p["func_name"]), style="rest", annotate=False, body=["print(LIMIT)"])
-    return gen.render_argparse(dict(spec, name="set_cli_args"))
+    return gen.render_argparse(dict(spec, name="set_cli_args", choices_form=p.get("choices_form")))
 
 
 def render_file(p, kind, spec, state):
